@@ -40,10 +40,12 @@ static char lname1[16] = "p", lname2[16] = "q";     /* two living names that col
 
 enum { C_HIST, C_STEPS, C_HOOKS, C_SCRIPTS, C_MOVES, C_DESTRUCTS, C_ERRORS, C_SILENT_DESTRUCTS, C_COMMANDS, C_VERBS, C_REENTRANT_LOADS, C_WALKS };
 
+static int fatal_corruption;      /* a driver list is cyclic: going on would only make the driver spin */
 static void fail_hist (const char *key, const char *fmt, ...) {
   char msg[560]; va_list ap; va_start (ap, fmt); vsnprintf (msg, sizeof msg, fmt, ap); va_end (ap);
   vx_fail (key, "%s", msg);
   vx_obs ("!! %s: %s", key, msg);
+  if (strstr (key, "cycle") || strstr (key, "too-long")) fatal_corruption = 1;
 }
 static int live (int i) { return i >= 0 && i < NOBJ && M[i].st == 1; }
 static int id_of (object_t *o) { if (!o) return -1; for (int i = 0; i < NOBJ; i++) if (OB[i] == o) return i; return -2; }
@@ -431,6 +433,7 @@ static void after_step (int failed, const char *desc, int expect_fail) {
   if (failed && !expect_fail && !scripts_run) fail_hist ("C08:unexpected-error", "%s raised an error although nothing was scripted to fail: %s", desc, hx_last_error);
   if (!failed && expect_fail) fail_hist ("C08:illegal-op-succeeded", "%s returned normally", desc);
   walk (desc);
+  if (fatal_corruption) { vx_obs ("history ends here: a list of the driver is cyclic"); vx_child_exit (0); }
   observe (desc);
 }
 
